@@ -9,7 +9,7 @@ from hypothesis import strategies as st
 
 from aiomysensors.model.protocol import get_protocol
 
-from vf import env
+from vf import drive, env
 from vf.codec_ref import INTERNAL_MAX, STREAM_MAX, VERSIONS, ref_protocol
 from vf.drive import classify
 from vf.runner import Outcome, fail
@@ -68,6 +68,8 @@ def _grid():
 
 
 def enumerate_cases(tier: str):
+    # one event of every kind under every environment dimension (transport kind, logging, warnings, a bystander gateway, registry file, ...)
+    yield from drive.env_sweep_cases()
     for stored in ("2.2.0", "2.3.2", "2.0", "1.5.1", "1.4", "", "garbage"):
         for report in ("2.2.0", "1.5", "2.1.1"):
             yield {"kind": "persisted", "stored": stored, "report": report}
@@ -125,6 +127,18 @@ def enumerate_cases(tier: str):
             ops = [["rx", f"0;255;3;0;2;{report}\n"], ["send", [0, 255, 3, 0, 2, ""]], ["probe", "edge"], ["send", [0, 255, 3, 1, 2, ""]], ["send", [0, 255, 3, 0, 18, ""]], ["send", [0, 255, 3, 0, 13, ""]],
                    ["send", [1, 255, 3, 0, 2, ""]], ["probe", "edge"]]
             yield {"kind": "hist", "listen_mode": mode, "ops": ops}
+    # the same reports through each kind of transport (the library's MQTT and stream transports carrying the lines), repeated and alternating,
+    # in both forms; and probes sent by the gateway, by a node that has no id yet (255) and by an unknown node
+    for via in ("mqtt", "stream"):
+        for a, b in (("2.2.0", "1.5.1"), ("1.4", "2.1.1"), ("2.0.0", "2.2.0")):
+            for mode in ("fresh", "persistent"):
+                ops = [["rx", f"0;255;0;0;18;{a}\n"], ["probe", "edge"], ["rx", f"0;255;3;0;2;{b}\n"], ["probe", "edge"], ["rx", f"0;255;0;0;18;{a}\n"], ["probe", "edge"],
+                       ["rx", f"0;255;3;0;2;{b}\n"], ["rx", f"0;255;3;0;2;{b}\n"], ["probe", "edge"], ["rx", f"0;255;3;0;2;{a}\n"], ["rx", f"0;255;3;0;2;{b}\n"], ["rx", f"0;255;3;0;2;{a}\n"], ["probe", "edge"]]
+                yield {"kind": "hist", "listen_mode": mode, "ops": ops, "via": via}
+    for sender in (0, 255, 78, 254):
+        for report in (None, "1.5.1", "2.0.0", "2.2.0"):
+            ops = ([] if report is None else [["rx", f"0;255;3;0;2;{report}\n"]]) + [["probe", "all"]]
+            yield {"kind": "hist", "listen_mode": "persistent", "ops": ops, "probe_sender": sender}
     # one gateway object, every type probed under version A, then again after the gateway reported version B
     reports = (None, "1.4", "1.5.1", "2.0.0", "2.1.1", "2.2.0", "2.3.2")
     for first in reports:
@@ -189,9 +203,9 @@ def _hist_ops():
 
 def strategy(tier: str):
     return st.one_of(
-        st.fixed_dictionaries({"kind": st.just("hist"), "listen_mode": st.sampled_from(("fresh", "persistent")), "ops": _hist_ops(), "debug_log": st.sampled_from((False, False, True)),
+        st.fixed_dictionaries({"kind": st.just("hist"), "via": st.sampled_from((None, None, "mqtt", "stream")), "probe_sender": st.sampled_from((1, 1, 0, 255, 78)), "listen_mode": st.sampled_from(("fresh", "persistent")), "ops": _hist_ops(), "debug_log": st.sampled_from((False, False, True)),
                                "tasks": st.sampled_from((False, False, True)), "persist": st.sampled_from((None, None, "tmp", "unwritable")), "warnings": st.sampled_from((None, None, "error"))}),
-        st.fixed_dictionaries({"kind": st.just("hist"), "listen_mode": st.sampled_from(("fresh", "persistent")), "ops": _hist_ops(), "debug_log": st.sampled_from((False, False, True)),
+        st.fixed_dictionaries({"kind": st.just("hist"), "via": st.sampled_from((None, None, "mqtt", "stream")), "probe_sender": st.sampled_from((1, 1, 0, 255, 78)), "listen_mode": st.sampled_from(("fresh", "persistent")), "ops": _hist_ops(), "debug_log": st.sampled_from((False, False, True)),
                                "tasks": st.sampled_from((False, False, True)), "persist": st.sampled_from((None, None, "tmp", "unwritable")), "warnings": st.sampled_from((None, None, "error"))}),
         st.fixed_dictionaries(
             {"kind": st.just("map"), "text": st.one_of(release_text, common_release), "via": st.sampled_from(("get_protocol", "reply", "presentation")),
@@ -309,7 +323,7 @@ def _run_hist(case: dict) -> Outcome:
 
             scratch_dir = tempfile.mkdtemp(prefix="vfc05-", dir="/dev/shm" if os.path.isdir("/dev/shm") else None)
             stats["tmpdir"] = scratch_dir
-        gateway, _t = env.make_gateway(None, persistence_file={"tmp": os.path.join(scratch_dir or "", "registry.json"), "unwritable": "unwritable"}.get(persist))
+        gateway, _t = env.make_gateway(None, persistence_file={"tmp": os.path.join(scratch_dir or "", "registry.json"), "unwritable": "unwritable"}.get(persist), via=case.get("via"))
         listener = env.Listener(gateway) if case.get("listen_mode") == "persistent" else None
 
         async def deliver(line: str):
@@ -342,11 +356,14 @@ def _run_hist(case: dict) -> Outcome:
                 if got_effect != want_effect:
                     return fail(f"handlers-in-force:{effect}:{want}", f"{where}, version {reported!r} (rules {want}): {line!r} {'had' if got_effect else 'did not have'} the effect '{effect}'")
             gateway.nodes[1].sleeping = False
+            sender = case.get("probe_sender", 1)  # who sends the probes: a known node, the gateway, a node that has no id yet, an unknown node
             for pidx, (cmd, mtype) in enumerate(probes):
-                status, value = await deliver(f"1;255;{cmd};{pidx % 2};{mtype};1\n")
+                status, value = await deliver(f"{sender};255;{cmd};{pidx % 2};{mtype};1\n")
                 outcome = classify(status, value)
                 if _supported(want, cmd, mtype) and outcome == "unsupported":
                     return fail(f"rules-in-force:refuses:{want}", f"{where}, version {reported!r}: type {cmd}/{mtype} exists in {want} but is refused")
+                if not _supported(want, cmd, mtype) and outcome == "missing_node" and sender != 1:
+                    continue  # (a sender the registry does not hold may be turned away for that before the type is looked at)
                 if not _supported(want, cmd, mtype) and outcome != "unsupported":
                     return fail(f"rules-in-force:accepts:{want}", f"{where}, version {reported!r}: type {cmd}/{mtype} not in {want} but gave {outcome}")
             return None
@@ -400,6 +417,8 @@ def _run_hist(case: dict) -> Outcome:
             reported, rules = gateway.protocol_version, gateway.protocol.VERSION
             text = _report_text(op[1])
             where = f"step {idx} {case['ops'][idx]!r}"
+            if text is not None and status == "drained":
+                return fail("report-swallowed", f"{where}: the report was delivered and neither yielded nor rejected (protocol_version {reported!r})")
             if text is not None and status != "ok":
                 stats["rejected"] += 1
                 if ref_protocol(text) is not None:
@@ -495,6 +514,8 @@ def _run_persisted(case: dict) -> Outcome:
 
 
 def run_case(case: dict) -> Outcome:
+    if case.get("kind") == "envsweep":
+        return drive.run_env_case(case, frozenset({"vquery", "leak"}))
     if not case.get("debug_log"):
         with env.strict_warnings(case.get("warnings") == "error"):  # (what `python -W error` / pytest's filterwarnings=error amount to)
             return _run_case(case)
